@@ -24,7 +24,7 @@ BOUNDS = {"quick": {"inputs": "all F4 rule patterns (every two-level combination
           "thorough": {"inputs": "as quick with all of F2, all F3 chains (every 2nd), seeded F5 trees of 8-20 nodes, long random chains up to 60 nodes, derivatives of every tree",
                        "outside": "inputs beyond the families, an unbounded termination argument"}}
 ASSUMPTIONS = ["private entry points _take_reduction_step, _is_fully_reduced, _normalize, _synthetic_partial are used because the property speaks about individual rewrite steps"]
-OPTS = {"quick": {"timeout_ms": 8000, "job_budget_s": 60}, "thorough": {"timeout_ms": 20000, "job_budget_s": 300}}
+OPTS = {"quick": {"timeout_ms": 8000, "job_budget_s": 60}, "thorough": {"timeout_ms": 20000, "job_budget_s": 600, "job_hard_s": 900}}
 
 
 def chains(rng, count, lo, hi):
@@ -80,6 +80,14 @@ def jobs(tier, seed):
             add(d, input="derivative", var="x")
         for d in chains(random.Random(seed + 1), 60, 40, 60):
             add(d)
+        # "a few hundred nodes": long chains and large seeded trees, and their symbolic derivatives
+        for d in chains(random.Random(seed + 2), 60, 100, 320):
+            add(d)
+        big = fam.f5(seed + 12, 80, 30, 120)
+        for d in big:
+            add(d)
+        for d in big[::2] + chains(random.Random(seed + 3), 20, 60, 150):
+            add(d, input="derivative", var="x")
     add(["Negation", ["Negation", fam.X]], twin="claim-zero-steps")
     for i, j in enumerate(js):
         j["id"] = f"{PROP}-{i}"
